@@ -13,6 +13,8 @@ Rq(svc, tag, idx, n, typ, vals) == [svc |-> svc, tag |-> tag, mode |-> "sym", id
                                     vals |-> vals, bytes |-> <<>>, ms |-> <<>>]
 V(x) == <<x, 0>>
 WAll(x)  == Rq("write", 1, 0, 8, "INT", [ i \in 1 .. 8 |-> V(x) ])          \* all eight elements to the same value
+\* the same write carried in a narrower, compatible element type (SINT values into the INT tag)
+WAllX(x) == Rq("write", 1, 0, 8, "SINT", [ i \in 1 .. 8 |-> <<x>> ])
 RAll     == Rq("read", 1, 0, 8, "INT", <<>>)
 WLow(x)  == Rq("write", 1, 0, 4, "INT", [ i \in 1 .. 4 |-> V(x + i) ])       \* private range [0,4)
 WHigh(x) == Rq("write", 1, 4, 4, "INT", [ i \in 1 .. 4 |-> V(x + i) ])       \* private range [4,8)
@@ -37,6 +39,7 @@ KOps == CASE Which = "torn"    -> << <<WAll(7)>>, <<RAll>> >>
           [] Which = "three"   -> << <<WAll(1)>>, <<WAll(2)>>, <<RAll, RU>> >>
           [] Which = "mixed"   -> << <<WLow(50), Bundle(<<RAll, WHigh(60)>>)>>, <<WAll(9), RAll>> >>
           [] Which = "conn"    -> << <<Open(1), Via(1, WLow(70)), Shut(1)>>, <<Open(2), Via(2, RAll), Via(2, WHigh(80))>> >>
+          [] Which = "xtype"   -> << <<WAllX(7), WAllX(8)>>, <<RAll, RAll>> >>
           [] Which = "attr"    -> << <<WAll(7), WAll(8)>>, <<GAS1, GAL1, GAS1>> >>
 
 \* private ranges keep the last value their only writer wrote (C09 "no lost private write"), at the end of every execution
@@ -47,7 +50,7 @@ PrivateKept ==
                [] OTHER -> TRUE
 \* a multi-element read never observes part of a multi-element write (all-equal writes => all-equal reads)
 NoTornRead == \A s \in Sessions : \A i \in 1 .. Len(got[s]) :
-                 /\ (got[s][i].k = "ok" /\ Len(got[s][i].data) = 8 /\ Which \in {"torn", "three"}) => \A a, b \in 1 .. 8 : got[s][i].data[a] = got[s][i].data[b]
+                 /\ (got[s][i].k = "ok" /\ Len(got[s][i].data) = 8 /\ Which \in {"torn", "three", "xtype"}) => \A a, b \in 1 .. 8 : got[s][i].data[a] = got[s][i].data[b]
                  \* the attribute's octets (the last 16 of the reply data: eight 16-bit elements) are those of ONE write
                  /\ (got[s][i].k = "okbytes" /\ Which = "attr") =>
                        LET d == got[s][i].data  n == Len(d) IN \A a, b \in 0 .. 7 : d[n - 15 + 2 * a] = d[n - 15 + 2 * b]
